@@ -129,6 +129,7 @@ func runC10(em *vEmitter, r *vRng) {
 	c10Reloads(em, r)
 	c10FdExhaustion(em, r)
 	c10ReloadDuringHookRound(em, r)
+	c10FailedModification(em, r)
 	// a backlog of logins that takes the dispatcher many seconds to work off (expensive hashes): every
 	// one of them is answered, and the agent answers other requests afterwards
 	c10SlowBurst(em, r)
@@ -574,6 +575,68 @@ func c10ReloadDuringHookRound(em *vEmitter, r *vRng) {
 	}
 	c := vCase{Prop: "C10", Kind: "load", Class: "load/reload-during-hook-round", Nontrivial: true,
 		Human: map[string]interface{}{"rounds": rounds, "hooks": 300}}
+	if viol != "" {
+		c.Violation = viol
+	} else {
+		ms.cleanup()
+	}
+	em.emit(c)
+}
+
+// A modification that FAILS inside the store library (the hash file cannot be created: a dangling symbolic
+// link occupies the name, '.tmp' is a regular file) must leave the agent as responsive as one that
+// succeeds: every request kind is probed after each failure, with local upgrades on.
+func c10FailedModification(em *vEmitter, r *vRng) {
+	ms := mNewStore("c10fm", r, 3)
+	ms.plant("root", true, 3, 1600000000, r.bytes(16), []byte("rootpw"), "")
+	ms.plant("erin", false, 1, 1600000001, r.bytes(16), []byte("erinpw"), "") // upgradeable
+	os.Symlink("../nowhere/carol.user", filepath.Join(ms.base, "carol.user"))
+	os.Symlink("../nowhere/mallory.admin", filepath.Join(ms.base, "mallory.admin"))
+	st, err := NewStore(ms.cfgfile, "local", "", "", "")
+	if err != nil {
+		panic(err)
+	}
+	api := st.GetInterface()
+	viol := ""
+	step := func(name string, f func()) {
+		if viol != "" {
+			return
+		}
+		done := make(chan struct{})
+		go func() { f(); close(done) }()
+		select {
+		case <-done:
+		case <-time.After(10 * time.Second):
+			viol = fmt.Sprintf("%s not answered within 10 s (after modifications that failed inside the store library): the agent is wedged", name)
+		}
+	}
+	steps := 0
+	for round := 0; round < 2; round++ {
+		for _, c := range []struct {
+			name string
+			f    func()
+		}{
+			{"add carol (the name is a dangling symbolic link)", func() { api.Add("carol", "pw", false) }},
+			{"list", func() { api.List() }},
+			{"add dave", func() { api.Add(fmt.Sprintf("dave%d", round), "pw", false) }},
+			{"add mallory as admin (dangling link)", func() { api.Add("mallory", "pw", true) }},
+			{"update root", func() { api.Update("root", "rootpw") }},
+			{"login of an upgradeable user", func() { api.Authenticate("erin", "erinpw") }},
+			{"set-admin dave", func() { api.SetAdmin(fmt.Sprintf("dave%d", round), true) }},
+			{"remove dave", func() { api.Remove(fmt.Sprintf("dave%d", round)) }},
+			{"check", func() { api.Check() }},
+			{"authenticate", func() { api.Authenticate("root", "rootpw") }},
+		} {
+			step(c.name, c.f)
+			steps++
+		}
+		if round == 0 {
+			// from now on no record can be rewritten at all
+			os.RemoveAll(filepath.Join(ms.base, ".tmp"))
+			os.WriteFile(filepath.Join(ms.base, ".tmp"), []byte("not a directory"), 0600)
+		}
+	}
+	c := vCase{Prop: "C10", Kind: "load", Class: "env/failed-modifications", Nontrivial: true, Human: map[string]interface{}{"steps": steps}}
 	if viol != "" {
 		c.Violation = viol
 	} else {
